@@ -157,6 +157,21 @@ fn c12(r: &mut Rep) {
             }
         }
     }
+    // the same shortcuts in front of a child field inside #[parent(..)] (its own name list in the ParentChildField parser)
+    for (s, basics) in &shortcuts {
+        if s.starts_with("try") { continue; }
+        for margs in ["(z)", "(~.clone())", "(z, ~.clone())"] {
+            let head = format!("#[{}(B)]", s);
+            let whead = basics.iter().map(|n| format!("#[{}(B)]", n)).collect::<Vec<_>>().join("\n");
+            let a = format!("{}\nstruct A {{ y: i32, #[parent(q, [{}{}] x)] p: P }}", head, s, margs);
+            let w = format!("{}\nstruct A {{ y: i32, #[parent(q, {} x)] p: P }}", whead, basics.iter().map(|n| format!("[{}{}]", n, margs)).collect::<Vec<_>>().join(" "));
+            r.same_items(&a, &w);
+            // and under the full set of conversions
+            let a2 = format!("#[map(B)]\n#[into_existing(B)]\nstruct A {{ y: i32, #[parent(q, [{}{}] x)] p: P }}", s, margs);
+            let w2 = format!("#[map(B)]\n#[into_existing(B)]\nstruct A {{ y: i32, #[parent(q, {} x)] p: P }}", basics.iter().map(|n| format!("[{}{}]", n, margs)).collect::<Vec<_>>().join(" "));
+            r.same_items(&a2, &w2);
+        }
+    }
     for (s, basics) in [("ghost", ["ghost_owned", "ghost_ref"]), ("ghosts", ["ghosts_owned", "ghosts_ref"])] {
         if s == "ghost" {
             let a = format!("#[map(B)]\n#[into_existing(B)]\nstruct A {{ #[{}({{ 1 }})] x: i32, y: i32 }}", s);
@@ -204,11 +219,24 @@ fn c06(r: &mut Rep) {
             let keep_default_where = if tl == 2 { "#[where_clause(T: Copy)]\n" } else { "" };
             let proj = format!("#[map(A)]\n#[into_existing(A)]\n{}{}{}struct S<T> {{ {} {} x0: T, {} x1: i32 }}", ta, keep_default_where, cpa, a0, d0, a1);
             gen.push((joint.clone(), proj));
+            if tl == 0 && d0.is_empty() {
+                // A only receives (into kinds), B only gives (from kinds): a nested #[parent] level needs no type for A
+                for pa in ["#[parent(A| [parent(q1)] inner, q2)]", "#[parent(A| q1, q2)]", "#[parent(A)]"] {
+                    let j2 = format!("#[into(A)]\n#[into_existing(A)]\n#[from(B)]\n{}struct S<T> {{ {} {} x0: T, {} {} x1: i32 }}", cpa, a0, b0, pa, b1);
+                    let pa2 = format!("#[into(A)]\n#[into_existing(A)]\n{}struct S<T> {{ {} x0: T, {} x1: i32 }}", cpa, a0, pa);
+                    let pb2 = format!("#[from(B)]\nstruct S<T> {{ {} x0: T, {} x1: i32 }}", b0, b1);
+                    gen.push((j2.clone(), pa2));
+                    gen.push((j2, pb2));
+                }
+            }
             let keep_default_where_b = if tl == 2 { "#[where_clause(T: Copy)]\n" } else { "" };
             let proj_b = format!("#[map(B)]\n#[try_into(B, E)]\n{}{}{}struct S<T> {{ {} {} x0: T, {} x1: i32 }}", keep_default_where_b, tb.replace("#[where_clause(T: Copy)]\n", ""), cpb, b0, d0, b1);
             gen.push((joint, proj_b));
         }
     } } } } }
+    let mut rejected_joint: std::collections::BTreeMap<String, Vec<(String, String)>> = std::collections::BTreeMap::new();
+    let mut projections_of: std::collections::BTreeMap<String, usize> = std::collections::BTreeMap::new();
+    for (j, _) in gen.iter() { *projections_of.entry(j.clone()).or_insert(0) += 1; }
     for (joint, proj) in gen.iter().map(|(a, b)| (a.as_str(), b.as_str())).chain(pairs.iter().map(|(a, b)| (*a, *b))) {
         r.cases += 1;
         match (expand(joint), expand(proj)) {
@@ -222,8 +250,16 @@ fn c06(r: &mut Rep) {
                     }
                 }
             }
-            // an input that is rejected jointly or in projection (e.g. a ghost without the other direction) is outside the statement
-            (Err(_), _) | (_, Err(_)) => {}
+            // a projection that is itself rejected is outside the statement
+            (_, Err(_)) => {}
+            // the projection is accepted but the joint input is not: remembered, and reported if the OTHER projection of the same
+            // joint input is accepted too (then nothing but the presence of the other counterpart can have caused the rejection)
+            (Err(e), Ok(_)) => { rejected_joint.entry(joint.to_string()).or_insert_with(Vec::new).push((proj.to_string(), e)); }
+        }
+    }
+    for (joint, v) in rejected_joint {
+        if v.len() == *projections_of.get(&joint).unwrap_or(&0) && v.len() >= 2 {
+            r.fails.push((joint.replace('\n', " "), v[0].0.replace('\n', " "), format!("every projection to a single counterpart is accepted, the joint input is rejected: {}", v[0].1)));
         }
     }
 }
@@ -416,6 +452,86 @@ fn c14(r: &mut Rep) {
     c14_traits(r);
 }
 
+
+// ---------------------------------------------------------------- c05: shadowed or inapplicable member instructions never interfere
+fn kinds_of(name: &str) -> (bool, Vec<&'static str>) {
+    let fall = name.contains("try_");
+    let n = name.replace("try_", "");
+    let kinds: Vec<&'static str> = match n.as_str() {
+        "owned_into" => vec!["OwnedInto"], "ref_into" => vec!["RefInto"], "into" => vec!["OwnedInto", "RefInto"],
+        "from_owned" => vec!["FromOwned"], "from_ref" => vec!["FromRef"], "from" => vec!["FromOwned", "FromRef"],
+        "map_owned" => vec!["FromOwned", "OwnedInto"], "map_ref" => vec!["FromRef", "RefInto"], "map" => vec!["FromOwned", "FromRef", "OwnedInto", "RefInto"],
+        "owned_into_existing" => vec!["OwnedIntoExisting"], "ref_into_existing" => vec!["RefIntoExisting"], "into_existing" => vec!["OwnedIntoExisting", "RefIntoExisting"],
+        _ => vec![],
+    };
+    (fall, kinds)
+}
+
+// at which step of the chain (0 = exact kind .. 3) would a member instruction `n2` serve the conversion (k, f); None = not applicable
+fn chain_step(n2: &str, k: &str, f: bool) -> Option<usize> {
+    let (f2, k2) = kinds_of(n2);
+    let into_same = if k == "OwnedIntoExisting" { Some("OwnedInto") } else if k == "RefIntoExisting" { Some("RefInto") } else { None };
+    if k2.contains(&k) && f2 == f { return Some(0); }
+    if f && k2.contains(&k) && !f2 { return Some(1); }
+    if let Some(i) = into_same {
+        if k2.contains(&i) && f2 == f { return Some(2); }
+        if f && k2.contains(&i) && !f2 { return Some(3); }
+    }
+    None
+}
+
+fn c05(r: &mut Rep) {
+    // the 21 member-level mapping instructions (the fallible into_existing forms exist at type level only)
+    let names = ["owned_into", "ref_into", "into", "from_owned", "from_ref", "from", "map_owned", "map_ref", "map", "owned_into_existing", "ref_into_existing", "into_existing",
+        "owned_try_into", "ref_try_into", "try_into", "try_from_owned", "try_from_ref", "try_from", "try_map_owned", "try_map_ref", "try_map"];
+    let convs = ["owned_into", "ref_into", "from_owned", "from_ref", "owned_into_existing", "ref_into_existing",
+        "owned_try_into", "ref_try_into", "try_from_owned", "try_from_ref", "owned_try_into_existing", "ref_try_into_existing"];
+    for t in convs {
+        let (f, ks) = kinds_of(t);
+        let k = ks[0];
+        let owned = k.contains("Owned");
+        let head = format!("#[{}(B{})]", t, if f { ", E" } else { "" });
+        let ctxs: [(&str, bool); 3] = [("struct A { y: i32, @M@ x: i32 }", false), ("enum A { U, V { y: i32, @M@ x: i32 } }", true), ("struct A(i32, @M@ i32);", false)];
+        for (wrap, is_enum) in ctxs {
+            if is_enum && k.contains("Existing") { continue; }
+            let tuple = wrap.contains("struct A(");
+            let bargs = if tuple { "0, ~.x()" } else { "b, ~.x()" };
+            let eargs = if tuple { "1, ~.y()" } else { "c, ~.y()" };
+            // the instruction that takes effect: any member instruction applicable at step sb, default or dedicated
+            for bname in names {
+                let sb = match chain_step(bname, k, f) { Some(x) => x, None => continue };
+                for base_ded in [false, true] {
+                    let base = if base_ded { format!("#[{}(B| {})]", bname, bargs) } else { format!("#[{}({})]", bname, bargs) };
+                    let alone = format!("{}\n{}", head, wrap.replace("@M@", &base));
+                    let mut extras: Vec<String> = vec![];
+                    for n2 in names {
+                        match chain_step(n2, k, f) {
+                            Some(s2) if s2 < sb => continue,                       // more specific: it would rightly win
+                            Some(s2) if s2 == sb => {                              // same step: only a default one loses, and only to a dedicated base
+                                if base_ded { extras.push(format!("#[{}({})]", n2, eargs)); }
+                            }
+                            _ => {                                                // a later step, or not applicable at all
+                                extras.push(format!("#[{}({})]", n2, eargs));
+                                extras.push(format!("#[{}(B| {})]", n2, eargs));
+                            }
+                        }
+                    }
+                    // a ghost of the other ownership does not apply
+                    extras.push(if owned { "#[ghost_ref({ 9 })]".to_string() } else { "#[ghost_owned({ 9 })]".to_string() });
+                    extras.push(if owned { "#[ghost_ref(B| { 9 })]".to_string() } else { "#[ghost_owned(B| { 9 })]".to_string() });
+                    for e in extras {
+                        for before in [false, true] {
+                            let m = if before { format!("{} {}", e, base) } else { format!("{} {}", base, e) };
+                            let both = format!("{}\n{}", head, wrap.replace("@M@", &m));
+                            r.same(&alone, &both);
+                        }
+                    }
+                }
+            }
+        }
+    }
+}
+
 fn main() {
     panic::set_hook(Box::new(|_| {}));
     let suite = std::env::args().nth(1).unwrap_or_default();
@@ -425,6 +541,7 @@ fn main() {
         "c12" => c12(&mut r),
         "c06" => c06(&mut r),
         "c14" => c14(&mut r),
+        "c05" => c05(&mut r),
         "c14_members" => c14_members(&mut r),
         "c14_enum_fields" => c14_enum_fields(&mut r),
         "c14_variants" => c14_variants(&mut r),
